@@ -200,7 +200,8 @@ func (fu *folderUpload) FormattedPath() string {
 		pathData = pathData[3+segLen:]
 	}
 
-	return filepath.Join(pathSegments...)
+	// The segments come from the client: anchor them at "/" first so that ".." cannot climb out of the upload folder.
+	return filepath.Join("/", filepath.Join(pathSegments...))
 }
 
 type FileHeader struct {
